@@ -3,6 +3,7 @@
 mod common;
 mod m_adapt;
 mod m_diff;
+mod m_obs;
 mod m_ovec;
 
 use std::io::{BufRead, Write};
@@ -14,6 +15,10 @@ fn main() {
         "diff" => m_diff::run_line,
         "adapt" => m_adapt::run_line,
         "ovec" => m_ovec::run_line,
+        "obs" => {
+            m_obs::check_hashes();
+            m_obs::run_line
+        }
         _ => {
             eprintln!("unknown mode {mode}");
             std::process::exit(2)
